@@ -187,6 +187,7 @@ class Run:
         self.faults_fired = {}
         self.fired_excs = []
         self.max_events = MAX_EVENTS
+        self.actor_by_task = False
         self.states = set()  # distinct (normalised suspension state, shadow-stack shape) pairs seen at hand-overs
         self.side = {}  # id(obj) -> [obj, label, flags]  (for objects that cannot carry attributes)
         self.inv_during_ctor = []
@@ -213,6 +214,13 @@ class Run:
         return a
 
     def actor(self):
+        if self.actor_by_task and asyncio._get_running_loop() is not None:
+            # tasks deliberately given ONE shared Context cannot be told apart by a context variable: use the task's name
+            t = asyncio.current_task()
+            if t is not None:
+                b = self.actors.get(t.get_name())
+                if b is not None:
+                    return b
         a = _ACTOR.get()
         if a is None or a.run is not self:
             raise HarnessError("hand-over outside an actor of this run")
@@ -250,7 +258,7 @@ class Run:
 
     # -- log ----------------------------------------------------------------------------------
     def ev(self, kind, sid, xid, detail):
-        a = _ACTOR.get()
+        a = self.actor() if self.actor_by_task else _ACTOR.get()
         n = len(self.log)
         if n >= self.max_events:
             self.aborted = "events"
@@ -399,6 +407,7 @@ class Run:
             a.stack.pop()
 
     async def _pause(self, a, tx, sid, d):
+        a = self.actor()
         self.ev("await", sid, tx.xid, d)
         cp = self.cancel_plan
         if cp is not None and tx.top.td["id"] == cp["top"]:
@@ -411,7 +420,7 @@ class Run:
                 asyncio.current_task().cancel()
         self.suspensions += 1
         await self.sleep(d)
-        if _ACTOR.get() is not a:
+        if self.actor() is not a:
             raise HarnessError("actor changed across await")
         self.ev("resume", sid, tx.xid, d)
 
